@@ -211,7 +211,8 @@ Proof.
   apply (is_RInt_derive F f a b).
   - intros x Hx. rewrite Rmin_left, Rmax_right in Hx by lra. apply HF. exact Hx.
   - intros x Hx. rewrite Rmin_left, Rmax_right in Hx by lra.
-    apply ex_derive_continuous. exists (f' x). apply Hf. exact Hx.
+    apply (@ex_derive_continuous R_AbsRing R_NormedModule f x).
+    exists (f' x). apply Hf. exact Hx.
 Qed.
 
 Theorem trapezoid_panel_RInt : forall (F f f' f'' : R -> R) (a b M : R),
@@ -240,12 +241,14 @@ Theorem trapezoid_panel_RInt_global : forall (f f' f'' : R -> R) (a b M : R),
 Proof.
   intros f f' f'' a b M Hab Hf Hf' Hup.
   assert (Hc : forall t, continuous f t).
-  { intros t. apply ex_derive_continuous. exists (f' t). apply Hf. }
+  { intros t. apply (@ex_derive_continuous R_AbsRing R_NormedModule f t).
+    exists (f' t). apply Hf. }
   apply (trapezoid_panel_RInt (fun t => RInt f a t) f f' f'' a b M); auto.
   intros t _.
   apply (is_derive_RInt f (fun t => RInt f a t) a t).
   - exists (mkposreal 1 Rlt_0_1). intros y _.
-    apply RInt_correct. apply ex_RInt_continuous. intros z _. apply Hc.
+    apply (@RInt_correct R_CompleteNormedModule).
+    apply (@ex_RInt_continuous R_CompleteNormedModule). intros z _. apply Hc.
   - apply Hc.
 Qed.
 
@@ -264,7 +267,7 @@ Example trapezoid_panel_sharp :
   F 1 - F 0 - (1 - 0) / 2 * (f 0 + f 1) = - (1 / 6) /\
   Rabs (F 1 - F 0 - (1 - 0) / 2 * (f 0 + f 1)) = 2 * (1 - 0) ^ 3 / 12.
 Proof.
-  cbv zeta. repeat split.
+  cbv zeta. split; [|split; [|split; [|split; [|split]]]].
   - intros t. auto_derive; [exact I | field].
   - intros t. auto_derive; [exact I | ring].
   - intros t. auto_derive; [exact I | ring].
@@ -273,3 +276,521 @@ Proof.
   - replace (1 ^ 3 / 3 - 0 ^ 3 / 3 - (1 - 0) / 2 * (0 ^ 2 + 1 ^ 2)) with (- (1 / 6)) by field.
     rewrite Rabs_Ropp, Rabs_pos_eq by lra. field.
 Qed.
+
+(* ====================================================================== *)
+(*  PART 2 (T3) : extrema over grid points                                *)
+(* ====================================================================== *)
+
+(* The uniform grid. *)
+Definition grid (a h : R) (j : nat) : R := a + INR j * h.
+
+Lemma grid_0 : forall a h, grid a h 0 = a.
+Proof. intros. unfold grid. simpl. ring. Qed.
+
+Lemma grid_S : forall a h j, grid a h (S j) = grid a h j + h.
+Proof. intros. unfold grid. rewrite S_INR. ring. Qed.
+
+Lemma grid_in : forall a b h n j, 0 < h -> INR n * h = b - a -> (j <= n)%nat ->
+  a <= grid a h j <= b.
+Proof.
+  intros a b h n j Hh Hn Hj. unfold grid.
+  assert (0 <= INR j) by apply pos_INR.
+  assert (INR j <= INR n) by (apply le_INR; exact Hj).
+  assert (0 <= INR j * h) by (apply Rmult_le_pos; lra).
+  assert (INR j * h <= INR n * h) by (apply Rmult_le_compat_r; lra).
+  lra.
+Qed.
+
+(* Every real in [0,n] is within 1/2 of a natural number <= n. *)
+Lemma nearest_nat : forall n y, 0 <= y <= INR n ->
+  exists j, (j <= n)%nat /\ Rabs (y - INR j) <= 1 / 2.
+Proof.
+  induction n as [|n IH]; intros y Hy.
+  - simpl in Hy. exists 0%nat. split; [lia|]. simpl.
+    replace (y - 0) with 0 by lra. rewrite Rabs_R0. lra.
+  - rewrite S_INR in Hy.
+    destruct (Rle_dec y (INR n)) as [Hle | Hgt].
+    + destruct (IH y) as (j & Hj & Hd); [lra|]. exists j. split; [lia | exact Hd].
+    + destruct (Rle_dec y (INR n + 1 / 2)) as [Hl | Hr].
+      * exists n. split; [lia|]. apply Rabs_le. lra.
+      * exists (S n). split; [lia|]. rewrite S_INR. apply Rabs_le. lra.
+Qed.
+
+(* Every point of [a,b] is within h/2 of a grid point. *)
+Lemma nearest_grid : forall a b h n xs, 0 < h -> INR n * h = b - a -> a <= xs <= b ->
+  exists j, (j <= n)%nat /\ Rabs (grid a h j - xs) <= h / 2.
+Proof.
+  intros a b h n xs Hh Hn Hxs.
+  destruct (nearest_nat n ((xs - a) / h)) as (j & Hj & Hd).
+  { split.
+    - apply Rmult_le_pos; [lra|]. apply Rlt_le, Rinv_0_lt_compat, Hh.
+    - apply Rmult_le_reg_r with h; [exact Hh|].
+      replace ((xs - a) / h * h) with (xs - a) by (field; lra). lra. }
+  exists j. split; [exact Hj|].
+  unfold grid.
+  replace (a + INR j * h - xs) with (- (h * ((xs - a) / h - INR j))) by (field; lra).
+  rewrite Rabs_Ropp, Rabs_mult, (Rabs_pos_eq h) by lra.
+  replace (h / 2) with (h * (1 / 2)) by field.
+  apply Rmult_le_compat_l; lra.
+Qed.
+
+Lemma sq_le_of_abs : forall u c, Rabs u <= c -> u ^ 2 <= c ^ 2.
+Proof.
+  intros u c H. rewrite <- (pow2_abs u).
+  apply pow_incr. split; [apply Rabs_pos | exact H].
+Qed.
+
+Section GridExtremum.
+
+Variables f f' f'' : R -> R.
+Variables a b M h : R.
+Variable n : nat.
+
+Hypothesis Hh   : 0 < h.
+Hypothesis Hn   : INR n * h = b - a.
+Hypothesis Hf   : forall t, a <= t <= b -> is_derive f t (f' t).
+Hypothesis Hf'  : forall t, a <= t <= b -> is_derive f' t (f'' t).
+Hypothesis Hup  : forall t, a <= t <= b -> Rabs (f'' t) <= M.
+
+(* At a critical point xs of f the nearest grid point carries the value of f
+   up to M h^2 / 8 (no extremality needed). *)
+Lemma grid_critical : forall xs, a <= xs <= b -> f' xs = 0 ->
+  exists j, (j <= n)%nat /\ Rabs (grid a h j - xs) <= h / 2 /\
+            Rabs (f xs - f (grid a h j)) <= M * h ^ 2 / 8.
+Proof using Hh Hn Hf Hf' Hup.
+  intros xs Hxs Hcrit.
+  destruct (nearest_grid a b h n xs Hh Hn Hxs) as (j & Hj & Hd).
+  exists j. split; [exact Hj|]. split; [exact Hd|].
+  pose proof (grid_in a b h n j Hh Hn Hj) as Hin.
+  set (xj := grid a h j) in *.
+  assert (HM : 0 <= M).
+  { apply Rle_trans with (Rabs (f'' xs)); [apply Rabs_pos | apply Hup; exact Hxs]. }
+  assert (Hh2 : 0 <= h ^ 2) by (apply pow_le; lra).
+  destruct (Req_dec xs xj) as [E | Hne].
+  - rewrite <- E. replace (f xs - f xs) with 0 by ring. rewrite Rabs_R0.
+    apply Rmult_le_pos; [apply Rmult_le_pos; assumption | lra].
+  - assert (Hsub : forall t, Rmin xs xj <= t <= Rmax xs xj -> a <= t <= b).
+    { intros t. unfold Rmin, Rmax. destruct (Rle_dec xs xj); lra. }
+    destruct (taylor2 f f' f'' xs xj Hne) as (d & Hdin & Et).
+    { intros t Ht. apply Hf. apply Hsub. exact Ht. }
+    { intros t Ht. apply Hf'. apply Hsub. exact Ht. }
+    rewrite Hcrit in Et.
+    replace (f xs - f xj) with (- (f'' d * ((xj - xs) ^ 2 / 2))) by (rewrite Et; field).
+    assert (Hsq : (xj - xs) ^ 2 <= (h / 2) ^ 2) by (apply sq_le_of_abs; exact Hd).
+    assert (Hsq0 : 0 <= (xj - xs) ^ 2) by apply pow2_ge_0.
+    rewrite Rabs_Ropp, Rabs_mult, (Rabs_pos_eq ((xj - xs) ^ 2 / 2)) by lra.
+    apply Rle_trans with (M * ((xj - xs) ^ 2 / 2)).
+    + apply Rmult_le_compat_r; [lra|]. apply Hup. apply Hsub. lra.
+    + replace (M * h ^ 2 / 8) with (M * ((h / 2) ^ 2 / 2)) by field.
+      apply Rmult_le_compat_l; lra.
+Qed.
+
+(* An interior maximiser is a critical point. *)
+Lemma interior_max_critical : forall xs, a < xs < b ->
+  (forall x, a <= x <= b -> f x <= f xs) -> f' xs = 0.
+Proof using Hf.
+  intros xs Hxs Hmax.
+  assert (Hlim : derivable_pt_lim f xs (f' xs)).
+  { apply is_derive_Reals. apply Hf. lra. }
+  pose (pr := exist (fun l => derivable_pt_abs f xs l) (f' xs) Hlim : derivable_pt f xs).
+  pose proof (deriv_maximum f a b xs pr) as H.
+  unfold pr in H. simpl in H. apply H; try lra.
+  intros x H1 H2. apply Hmax. lra.
+Qed.
+
+(* T3, maximum.  xs is ANY maximiser of f on [a,b] (interior or end point:
+   end points are grid points). *)
+Theorem grid_max_second_order : forall xs, a <= xs <= b ->
+  (forall x, a <= x <= b -> f x <= f xs) ->
+  exists j, (j <= n)%nat /\ 0 <= f xs - f (grid a h j) <= M * h ^ 2 / 8.
+Proof using Hh Hn Hf Hf' Hup.
+  intros xs Hxs Hmax.
+  assert (HM : 0 <= M).
+  { apply Rle_trans with (Rabs (f'' xs)); [apply Rabs_pos | apply Hup; exact Hxs]. }
+  assert (Hh2 : 0 <= h ^ 2) by (apply pow_le; lra).
+  assert (Hbd : 0 <= M * h ^ 2 / 8).
+  { apply Rmult_le_pos; [apply Rmult_le_pos; assumption | lra]. }
+  destruct (Req_dec xs a) as [Ea | Hna].
+  { exists 0%nat. split; [lia|]. rewrite grid_0, Ea. lra. }
+  destruct (Req_dec xs b) as [Eb | Hnb].
+  { exists n. split; [lia|]. unfold grid. rewrite Hn, Eb.
+    replace (a + (b - a)) with b by ring. lra. }
+  assert (Hcrit : f' xs = 0) by (apply interior_max_critical; [lra | exact Hmax]).
+  destruct (grid_critical xs Hxs Hcrit) as (j & Hj & _ & Hd).
+  exists j. split; [exact Hj|].
+  pose proof (Hmax (grid a h j) (grid_in a b h n j Hh Hn Hj)) as Hle.
+  rewrite Rabs_pos_eq in Hd by lra. lra.
+Qed.
+
+End GridExtremum.
+
+Print Assumptions grid_max_second_order.
+
+(* T3, minimum, by the symmetry f |-> -f. *)
+Theorem grid_min_second_order : forall (f f' f'' : R -> R) (a b M h : R) (n : nat),
+  0 < h -> INR n * h = b - a ->
+  (forall t, a <= t <= b -> is_derive f t (f' t)) ->
+  (forall t, a <= t <= b -> is_derive f' t (f'' t)) ->
+  (forall t, a <= t <= b -> Rabs (f'' t) <= M) ->
+  forall xs, a <= xs <= b ->
+  (forall x, a <= x <= b -> f xs <= f x) ->
+  exists j, (j <= n)%nat /\ 0 <= f (grid a h j) - f xs <= M * h ^ 2 / 8.
+Proof.
+  intros f f' f'' a b M h n Hh Hn Hf Hf' Hup xs Hxs Hmin.
+  destruct (grid_max_second_order (fun t => - f t) (fun t => - f' t) (fun t => - f'' t)
+              a b M h n Hh Hn) with (xs := xs) as (j & Hj & Hd).
+  - intros t Ht. exact (is_derive_opp f t (f' t) (Hf t Ht)).
+  - intros t Ht. exact (is_derive_opp f' t (f'' t) (Hf' t Ht)).
+  - intros t Ht. rewrite Rabs_Ropp. apply Hup. exact Ht.
+  - exact Hxs.
+  - intros x Hx. pose proof (Hmin x Hx). lra.
+  - exists j. split; [exact Hj|]. lra.
+Qed.
+
+Print Assumptions grid_min_second_order.
+
+(* ---------------------------------------------------------------------- *)
+(*  The maximum / minimum of the LIST of samples                          *)
+(* ---------------------------------------------------------------------- *)
+
+(* numpy  max / min  of a non-empty array (the value on [] is irrelevant). *)
+Definition Rlist_max (l : list R) : R :=
+  match l with [] => 0 | x :: t => fold_right Rmax x t end.
+Definition Rlist_min (l : list R) : R :=
+  match l with [] => 0 | x :: t => fold_right Rmin x t end.
+
+Lemma fold_Rmax_ge : forall t x y, In y (x :: t) -> y <= fold_right Rmax x t.
+Proof.
+  induction t as [|z t IH]; intros x y Hin; simpl in *.
+  - destruct Hin as [-> | []]. lra.
+  - destruct Hin as [-> | [-> | Hin]].
+    + apply Rle_trans with (fold_right Rmax y t); [apply IH; left; reflexivity | apply Rmax_r].
+    + apply Rmax_l.
+    + apply Rle_trans with (fold_right Rmax x t); [apply IH; right; exact Hin | apply Rmax_r].
+Qed.
+
+Lemma fold_Rmax_in : forall t x, In (fold_right Rmax x t) (x :: t).
+Proof.
+  induction t as [|z t IH]; intros x.
+  - left. reflexivity.
+  - change (In (Rmax z (fold_right Rmax x t)) (x :: z :: t)).
+    destruct (Rle_dec z (fold_right Rmax x t)) as [H | H].
+    + rewrite Rmax_right by exact H.
+      destruct (IH x) as [E | Hin]; [left; exact E | right; right; exact Hin].
+    + rewrite Rmax_left by lra. right. left. reflexivity.
+Qed.
+
+Lemma fold_Rmin_le : forall t x y, In y (x :: t) -> fold_right Rmin x t <= y.
+Proof.
+  induction t as [|z t IH]; intros x y Hin; simpl in *.
+  - destruct Hin as [-> | []]. lra.
+  - destruct Hin as [-> | [-> | Hin]].
+    + apply Rle_trans with (fold_right Rmin y t); [apply Rmin_r | apply IH; left; reflexivity].
+    + apply Rmin_l.
+    + apply Rle_trans with (fold_right Rmin x t); [apply Rmin_r | apply IH; right; exact Hin].
+Qed.
+
+Lemma fold_Rmin_in : forall t x, In (fold_right Rmin x t) (x :: t).
+Proof.
+  induction t as [|z t IH]; intros x.
+  - left. reflexivity.
+  - change (In (Rmin z (fold_right Rmin x t)) (x :: z :: t)).
+    destruct (Rle_dec z (fold_right Rmin x t)) as [H | H].
+    + rewrite Rmin_left by exact H. right. left. reflexivity.
+    + rewrite Rmin_right by lra.
+      destruct (IH x) as [E | Hin]; [left; exact E | right; right; exact Hin].
+Qed.
+
+Lemma Rlist_max_ge : forall l y, In y l -> y <= Rlist_max l.
+Proof. intros [|x t] y Hin; [destruct Hin | apply fold_Rmax_ge; exact Hin]. Qed.
+Lemma Rlist_max_in : forall l, l <> [] -> In (Rlist_max l) l.
+Proof. intros [|x t] Hne; [congruence | apply fold_Rmax_in]. Qed.
+Lemma Rlist_min_le : forall l y, In y l -> Rlist_min l <= y.
+Proof. intros [|x t] y Hin; [destruct Hin | apply fold_Rmin_le; exact Hin]. Qed.
+Lemma Rlist_min_in : forall l, l <> [] -> In (Rlist_min l) l.
+Proof. intros [|x t] Hne; [congruence | apply fold_Rmin_in]. Qed.
+
+(* The n+1 samples f x_0, ..., f x_n. *)
+Definition samples (f : R -> R) (a h : R) (n : nat) : list R :=
+  map (fun j => f (grid a h j)) (seq 0 (S n)).
+
+Lemma samples_in : forall f a h n y,
+  In y (samples f a h n) <-> exists j, (j <= n)%nat /\ y = f (grid a h j).
+Proof.
+  intros f a h n y. unfold samples. rewrite in_map_iff. split.
+  - intros (j & E & Hin). apply in_seq in Hin. exists j. split; [lia | congruence].
+  - intros (j & Hj & E). exists j. split; [congruence | apply in_seq; lia].
+Qed.
+
+Lemma samples_nonempty : forall f a h n, samples f a h n <> [].
+Proof. intros f a h n. unfold samples. simpl. discriminate. Qed.
+
+Theorem grid_max_list_second_order :
+  forall (f f' f'' : R -> R) (a b M h : R) (n : nat),
+  0 < h -> INR n * h = b - a ->
+  (forall t, a <= t <= b -> is_derive f t (f' t)) ->
+  (forall t, a <= t <= b -> is_derive f' t (f'' t)) ->
+  (forall t, a <= t <= b -> Rabs (f'' t) <= M) ->
+  forall xs, a <= xs <= b ->
+  (forall x, a <= x <= b -> f x <= f xs) ->
+  0 <= f xs - Rlist_max (samples f a h n) <= M * h ^ 2 / 8.
+Proof.
+  intros f f' f'' a b M h n Hh Hn Hf Hf' Hup xs Hxs Hmax.
+  destruct (grid_max_second_order f f' f'' a b M h n Hh Hn Hf Hf' Hup xs Hxs Hmax)
+    as (j & Hj & Hd).
+  split.
+  - pose proof (Rlist_max_in _ (samples_nonempty f a h n)) as Hin.
+    apply samples_in in Hin. destruct Hin as (k & Hk & ->).
+    pose proof (Hmax _ (grid_in a b h n k Hh Hn Hk)). lra.
+  - assert (Hge : f (grid a h j) <= Rlist_max (samples f a h n)).
+    { apply Rlist_max_ge. apply samples_in. exists j. split; [exact Hj | reflexivity]. }
+    lra.
+Qed.
+
+Print Assumptions grid_max_list_second_order.
+
+Theorem grid_min_list_second_order :
+  forall (f f' f'' : R -> R) (a b M h : R) (n : nat),
+  0 < h -> INR n * h = b - a ->
+  (forall t, a <= t <= b -> is_derive f t (f' t)) ->
+  (forall t, a <= t <= b -> is_derive f' t (f'' t)) ->
+  (forall t, a <= t <= b -> Rabs (f'' t) <= M) ->
+  forall xs, a <= xs <= b ->
+  (forall x, a <= x <= b -> f xs <= f x) ->
+  0 <= Rlist_min (samples f a h n) - f xs <= M * h ^ 2 / 8.
+Proof.
+  intros f f' f'' a b M h n Hh Hn Hf Hf' Hup xs Hxs Hmin.
+  destruct (grid_min_second_order f f' f'' a b M h n Hh Hn Hf Hf' Hup xs Hxs Hmin)
+    as (j & Hj & Hd).
+  split.
+  - pose proof (Rlist_min_in _ (samples_nonempty f a h n)) as Hin.
+    apply samples_in in Hin. destruct Hin as (k & Hk & ->).
+    pose proof (Hmin _ (grid_in a b h n k Hh Hn Hk)). lra.
+  - assert (Hge : Rlist_min (samples f a h n) <= f (grid a h j)).
+    { apply Rlist_min_le. apply samples_in. exists j. split; [exact Hj | reflexivity]. }
+    lra.
+Qed.
+
+Print Assumptions grid_min_list_second_order.
+
+(* The bound is attained: f = -(x - 1/2)^2 on [0,1], h = 1, n = 1, M = 2:
+   the maximum 0 sits midway between the two grid points, where f = -1/4,
+   and M h^2 / 8 = 1/4. *)
+Example grid_max_sharp :
+  let f := fun x : R => - (x - 1 / 2) ^ 2 in
+  let f' := fun x : R => - (2 * (x - 1 / 2)) in
+  let f'' := fun _ : R => - 2 in
+  (forall t, is_derive f t (f' t)) /\
+  (forall t, is_derive f' t (f'' t)) /\
+  (forall t, Rabs (f'' t) <= 2) /\
+  (forall x, f x <= f (1 / 2)) /\
+  INR 1 * 1 = 1 - 0 /\
+  samples f 0 1 1 = [- (1 / 4); - (1 / 4)] /\
+  f (1 / 2) - Rlist_max (samples f 0 1 1) = 2 * 1 ^ 2 / 8.
+Proof.
+  cbv zeta.
+  assert (E : samples (fun x : R => - (x - 1 / 2) ^ 2) 0 1 1 = [- (1 / 4); - (1 / 4)]).
+  { unfold samples, grid. simpl. f_equal; [|f_equal]; field. }
+  split; [|split; [|split; [|split; [|split; [|split]]]]].
+  - intros t. auto_derive; [exact I | ring].
+  - intros t. auto_derive; [exact I | ring].
+  - intros _. apply Rabs_le. lra.
+  - intros x. pose proof (pow2_ge_0 (x - 1 / 2)).
+    replace ((1 / 2 - 1 / 2) ^ 2) with 0 by field. lra.
+  - simpl. ring.
+  - exact E.
+  - rewrite E. simpl. rewrite Rmax_left by lra. field.
+Qed.
+
+(* ====================================================================== *)
+(*  PART 3 (T2) : cumulative trapezoid sums                               *)
+(* ====================================================================== *)
+
+(* Cumulative trapezoid sum on arbitrary abscissae x_0, x_1, ...:
+   T_0 = 0,  T_{j+1} = T_j + (x_{j+1} - x_j)/2 (f x_j + f x_{j+1}). *)
+Fixpoint trap_nu (f : R -> R) (x : nat -> R) (j : nat) : R :=
+  match j with
+  | O => 0
+  | S i => trap_nu f x i + (x (S i) - x i) / 2 * (f (x i) + f (x (S i)))
+  end.
+
+(* On the uniform grid (python: varphi[j] = varphi[j-1] + h/2 (f[j-1] + f[j])). *)
+Fixpoint trap_u (f : R -> R) (a h : R) (j : nat) : R :=
+  match j with
+  | O => 0
+  | S i => trap_u f a h i + h / 2 * (f (grid a h i) + f (grid a h (S i)))
+  end.
+
+Lemma trap_u_S : forall f a h i,
+  trap_u f a h (S i) = trap_u f a h i + h / 2 * (f (grid a h i) + f (grid a h (S i))).
+Proof. reflexivity. Qed.
+
+Lemma trap_u_nu : forall f a h j, trap_u f a h j = trap_nu f (grid a h) j.
+Proof.
+  intros f a h j. induction j as [|j IH]; [reflexivity|].
+  simpl. rewrite IH, grid_S. f_equal. f_equal. field.
+Qed.
+
+Section CumulativeNonUniform.
+
+Variables F f f' f'' : R -> R.
+Variable x : nat -> R.
+Variable n : nat.
+Variables M h : R.
+
+Hypothesis Hinc  : forall i, (i < n)%nat -> x i < x (S i).
+Hypothesis Hstep : forall i, (i < n)%nat -> x (S i) - x i <= h.
+Hypothesis HF  : forall t, x 0%nat <= t <= x n -> is_derive F t (f t).
+Hypothesis Hf  : forall t, x 0%nat <= t <= x n -> is_derive f t (f' t).
+Hypothesis Hf' : forall t, x 0%nat <= t <= x n -> is_derive f' t (f'' t).
+Hypothesis Hup : forall t, x 0%nat <= t <= x n -> Rabs (f'' t) <= M.
+
+Lemma abscissae_mono : forall i j, (i <= j)%nat -> (j <= n)%nat -> x i <= x j.
+Proof using Hinc.
+  intros i j Hij. induction Hij as [|j Hij IH]; intros Hjn; [lra|].
+  apply Rle_trans with (x j); [apply IH; lia|]. apply Rlt_le, Hinc. lia.
+Qed.
+
+Lemma M_nonneg_nu : 0 <= M.
+Proof using Hinc Hup.
+  apply Rle_trans with (Rabs (f'' (x 0%nat))); [apply Rabs_pos|].
+  apply Hup. split; [lra | apply abscissae_mono; lia].
+Qed.
+
+(* T2, non-uniform abscissae: second-order accurate at EVERY abscissa. *)
+Theorem cumulative_trapezoid_nonuniform : forall j, (j <= n)%nat ->
+  Rabs (F (x j) - F (x 0%nat) - trap_nu f x j) <= (x j - x 0%nat) * M * h ^ 2 / 12.
+Proof using Hinc Hstep HF Hf Hf' Hup.
+  pose proof M_nonneg_nu as HM.
+  induction j as [|j IH]; intros Hj.
+  - simpl. replace (F (x 0%nat) - F (x 0%nat) - 0) with 0 by ring.
+    rewrite Rabs_R0. lra.
+  - assert (Hjn : (j < n)%nat) by lia.
+    pose proof (Hinc j Hjn) as Hlt. pose proof (Hstep j Hjn) as Hle.
+    pose proof (abscissae_mono 0 j ltac:(lia) ltac:(lia)) as H0j.
+    pose proof (abscissae_mono (S j) n ltac:(lia) ltac:(lia)) as HSn.
+    assert (Hsub : forall t, x j <= t <= x (S j) -> x 0%nat <= t <= x n)
+      by (intros t Ht; lra).
+    assert (Hpanel : Rabs (F (x (S j)) - F (x j)
+                           - (x (S j) - x j) / 2 * (f (x j) + f (x (S j))))
+                     <= M * (x (S j) - x j) ^ 3 / 12).
+    { apply (trapezoid_panel F f f' f'' (x j) (x (S j)) M Hlt);
+        intros t Ht; auto. }
+    simpl trap_nu.
+    remember (x (S j) - x j) as dx eqn:Edx.
+    assert (Hdx : 0 < dx <= h) by lra.
+    assert (Hdx3 : M * dx ^ 3 / 12 <= dx * M * h ^ 2 / 12).
+    { assert (Hsq : dx ^ 2 <= h ^ 2) by (apply pow_incr; lra).
+      assert (H1 : dx * dx ^ 2 <= dx * h ^ 2) by (apply Rmult_le_compat_l; lra).
+      assert (H2 : M * (dx * dx ^ 2) <= M * (dx * h ^ 2))
+        by (apply Rmult_le_compat_l; assumption).
+      lra. }
+    replace (F (x (S j)) - F (x 0%nat)
+             - (trap_nu f x j + dx / 2 * (f (x j) + f (x (S j)))))
+      with ((F (x j) - F (x 0%nat) - trap_nu f x j)
+            + (F (x (S j)) - F (x j) - dx / 2 * (f (x j) + f (x (S j))))) by ring.
+    eapply Rle_trans; [apply Rabs_triang|].
+    specialize (IH ltac:(lia)).
+    replace ((x (S j) - x 0%nat) * M * h ^ 2 / 12)
+      with ((x j - x 0%nat) * M * h ^ 2 / 12 + dx * M * h ^ 2 / 12)
+      by (rewrite Edx; field).
+    lra.
+Qed.
+
+End CumulativeNonUniform.
+
+Print Assumptions cumulative_trapezoid_nonuniform.
+
+(* T2, uniform grid: the Boozer-angle sum. *)
+Theorem cumulative_trapezoid_uniform :
+  forall (F f f' f'' : R -> R) (a h M : R) (n : nat),
+  0 < h ->
+  (forall t, a <= t <= grid a h n -> is_derive F t (f t)) ->
+  (forall t, a <= t <= grid a h n -> is_derive f t (f' t)) ->
+  (forall t, a <= t <= grid a h n -> is_derive f' t (f'' t)) ->
+  (forall t, a <= t <= grid a h n -> Rabs (f'' t) <= M) ->
+  forall j, (j <= n)%nat ->
+  Rabs (F (grid a h j) - F a - trap_u f a h j) <= INR j * (M * h ^ 3 / 12) /\
+  INR j * (M * h ^ 3 / 12) = (grid a h j - a) * M * h ^ 2 / 12.
+Proof.
+  intros F f f' f'' a h M n Hh HF Hf Hf' Hup j Hj.
+  assert (E : INR j * (M * h ^ 3 / 12) = (grid a h j - a) * M * h ^ 2 / 12)
+    by (unfold grid; field).
+  split; [|exact E].
+  rewrite E, trap_u_nu.
+  pose proof (cumulative_trapezoid_nonuniform F f f' f'' (grid a h) n M h) as H.
+  rewrite grid_0 in H. apply H; try assumption.
+  - intros i _. rewrite grid_S. lra.
+  - intros i _. rewrite grid_S. lra.
+Qed.
+
+Print Assumptions cumulative_trapezoid_uniform.
+
+(* The same with the integral itself. *)
+Corollary cumulative_trapezoid_uniform_RInt :
+  forall (F f f' f'' : R -> R) (a h M : R) (n : nat),
+  0 < h ->
+  (forall t, a <= t <= grid a h n -> is_derive F t (f t)) ->
+  (forall t, a <= t <= grid a h n -> is_derive f t (f' t)) ->
+  (forall t, a <= t <= grid a h n -> is_derive f' t (f'' t)) ->
+  (forall t, a <= t <= grid a h n -> Rabs (f'' t) <= M) ->
+  forall j, (j <= n)%nat ->
+  Rabs (RInt f a (grid a h j) - trap_u f a h j) <= (grid a h j - a) * M * h ^ 2 / 12.
+Proof.
+  intros F f f' f'' a h M n Hh HF Hf Hf' Hup j Hj.
+  assert (Hjn : a <= grid a h j <= grid a h n).
+  { unfold grid. assert (0 <= INR j) by apply pos_INR.
+    assert (INR j <= INR n) by (apply le_INR; exact Hj).
+    assert (0 <= INR j * h) by (apply Rmult_le_pos; lra).
+    assert (INR j * h <= INR n * h) by (apply Rmult_le_compat_r; lra). lra. }
+  rewrite (RInt_antiderivative F f f' a (grid a h j)).
+  - destruct (cumulative_trapezoid_uniform F f f' f'' a h M n Hh HF Hf Hf' Hup j Hj)
+      as [H E]. rewrite <- E. exact H.
+  - lra.
+  - intros t Ht. apply HF. lra.
+  - intros t Ht. apply Hf. lra.
+Qed.
+
+Print Assumptions cumulative_trapezoid_uniform_RInt.
+
+(* The bound is attained at EVERY grid point and for every h:
+   f = x^2 from a = 0, M = 2: the cumulative error is exactly -j h^3/6. *)
+Example cumulative_trapezoid_sharp : forall (h : R) (j : nat),
+  let F := fun x : R => x ^ 3 / 3 in
+  let f := fun x : R => x ^ 2 in
+  F (grid 0 h j) - F 0 - trap_u f 0 h j = - (INR j * (2 * h ^ 3 / 12)).
+Proof.
+  intros h j. cbv zeta. induction j as [|j IH].
+  - unfold grid. simpl. field.
+  - assert (ET : trap_u (fun x : R => x ^ 2) 0 h j
+                 = (grid 0 h j) ^ 3 / 3 + INR j * (2 * h ^ 3 / 12)) by lra.
+    rewrite trap_u_S, ET, grid_S, S_INR. field.
+Qed.
+
+Example cumulative_trapezoid_sharp_abs : forall (h : R) (j : nat), 0 < h ->
+  let F := fun x : R => x ^ 3 / 3 in
+  let f := fun x : R => x ^ 2 in
+  Rabs (F (grid 0 h j) - F 0 - trap_u f 0 h j) = INR j * (2 * h ^ 3 / 12).
+Proof.
+  intros h j Hh. cbv beta zeta.
+  pose proof (cumulative_trapezoid_sharp h j) as E. cbv beta zeta in E. rewrite E.
+  rewrite Rabs_Ropp. apply Rabs_pos_eq.
+  apply Rmult_le_pos; [apply pos_INR|].
+  assert (0 < h ^ 3) by (apply pow_lt; exact Hh). lra.
+Qed.
+
+(* ---------------------------------------------------------------------- *)
+(*  Closed statements (for the notes)                                     *)
+(* ---------------------------------------------------------------------- *)
+Check trapezoid_panel_exact.
+Check trapezoid_panel.
+Check trapezoid_panel_RInt.
+Check trapezoid_panel_RInt_global.
+Check grid_critical.
+Check grid_max_second_order.
+Check grid_min_second_order.
+Check grid_max_list_second_order.
+Check grid_min_list_second_order.
+Check cumulative_trapezoid_nonuniform.
+Check cumulative_trapezoid_uniform.
+Check cumulative_trapezoid_uniform_RInt.
